@@ -109,7 +109,18 @@ def c18(tier):
         trusted=["rule files materialised on disk by the harness and loaded through linter.NewChecker from a working directory that can resolve the dsl package"])
 
 
-CHECKS = {"C06": c06, "C14": c14, "C17": c17, "C18": c18, "C15": c15, "C16": c16, "C19": c19, "C10": c10, "C12": c12}
+def c08(tier):
+    vlib.standard(
+        "C08", tier, "c08", ["Properties_C08.v", "Proofs_Frontends.v"],
+        assume=[
+            "a checker's diagnostics for a file do not depend on which package variant (p, p [p.test]) the file is analysed in; the differential run measures this",
+            "the go/analysis driver prints each distinct (position, message) once (x/tools internal/checker)",
+            "golangci-lint's own integration is not in this repository",
+        ],
+        trusted=["the four built binaries; go/packages; singlechecker's -json and -flags output formats"])
+
+
+CHECKS = {"C06": c06, "C08": c08, "C14": c14, "C17": c17, "C18": c18, "C15": c15, "C16": c16, "C19": c19, "C10": c10, "C12": c12}
 
 
 def run(prop, tier):
